@@ -2,7 +2,7 @@
 reachable from its k-th argument (bottom-up fixed point over the call graph; field paths k-limited)."""
 import collections
 
-from .core import (strip, is_var, callee, apath, fields_of, norm_callee, walk)
+from .core import (strip, is_var, callee, apath, fields_of, norm_callee, walk, const_of)
 
 K = 8
 
@@ -77,8 +77,111 @@ class Effects:
                                 else:
                                     direct.append(((pa[0], pa[1], pa[2] + ("*",)), c[4], "ext:" + name, b["id"], i))
         self.origins[f.key] = org
+        direct, calls = self._refine_mixed(f, org, direct, calls)
         self.direct[f.key] = direct
         self.callinfo[f.key] = calls
+
+    def _refine_mixed(self, f, org, direct, calls):
+        """locals that point either into a parameter's object or to fresh storage (cstat = B->cstat / malloc): resolve, per
+        write or call site, which origin the local can actually have there (path-sensitive, with null facts on parameters)"""
+        def param_rooted(o, depth=0):
+            if o[0].startswith("p"):
+                return True
+            if o[0] == "l" and depth < 4:
+                return any(param_rooted(x, depth + 1) for x in org.get(o[1], []) if not (x[0] == "l" and x[1] == o[1]))
+            return False
+        mixed = {}
+        for L, os_ in org.items():
+            if f.param_index(L) is not None:
+                continue
+            pr = [o for o in os_ if param_rooted(o)]
+            fr = [o for o in os_ if not param_rooted(o)]
+            if pr and fr:
+                mixed[L] = os_
+        if not mixed:
+            return direct, calls
+        from .core import Flow
+        from .cond import atoms, SWAP
+        sites = {}
+        for (p, loc, how, bid, idx) in direct:
+            if p[0] == "l" and p[1] in mixed:
+                sites.setdefault((bid, idx), set())
+        for (g, name, loc, args, bid, idx, c) in calls:
+            if any(a[0] == "l" and a[1] in mixed for a in args):
+                sites.setdefault((bid, idx), set())
+        if not sites:
+            return direct, calls
+        names = sorted(mixed)
+
+        def setv(st, L, v):
+            d = dict(st[0])
+            d[L] = v
+            return (tuple(sorted(d.items())), st[1])
+
+        def xfer(b, i, e, st):
+            if (b["id"], i) in sites:
+                sites[(b["id"], i)].add(st[0])
+            if e[0] == "A" and is_var(e[1][2], kind="l") and strip(e[1][2])[2] in mixed and e[1][1] == "=":
+                return [setv(st, strip(e[1][2])[2], apath(e[1][3]))]
+            if e[0] == "D":
+                out = st
+                for n, init in e[1]:
+                    if n in mixed and init is not None:
+                        out = setv(out, n, apath(init))
+                return [out]
+            return None
+
+        def refine(cond, truth, st):
+            nulls = dict(st[1])
+            for l, op, r in atoms(cond, truth):
+                for a, b_, o in ((l, r, op), (r, l, SWAP[op])):
+                    if is_var(a, kind="p") and const_of(b_) == 0 and o in ("==", "!="):
+                        nm = strip(a)[2]
+                        want = "null" if o == "==" else "nonnull"
+                        if nulls.get(nm, want) != want:
+                            return []
+                        nulls[nm] = want
+            return [(st[0], tuple(sorted(nulls.items())))]
+        try:
+            Flow(self.prog, f, [((), ())], xfer, refine, max_visits=200000).run()
+        except Exception:
+            return direct, calls
+
+        def actual(bid, idx, L):
+            outs = set()
+            for st0 in sites.get((bid, idx), ()):
+                d = dict(st0)
+                if L in d:
+                    outs.add(d[L])
+                else:
+                    outs.update(mixed[L])       # unassigned on this path: keep all
+            return outs or set(mixed[L])
+        nd = []
+        for (p, loc, how, bid, idx) in direct:
+            if p[0] == "l" and p[1] in mixed:
+                for o in actual(bid, idx, p[1]):
+                    nd.append(((o[0], o[1], o[2] + p[2]), loc, how, bid, idx))
+            else:
+                nd.append((p, loc, how, bid, idx))
+        nc = []
+        for (g, name, loc, args, bid, idx, c) in calls:
+            if any(a[0] == "l" and a[1] in mixed for a in args):
+                # expand into one pseudo call per combination is overkill: substitute each mixed arg by each actual origin
+                variants = [list(args)]
+                for k, a in enumerate(args):
+                    if a[0] == "l" and a[1] in mixed:
+                        nv = []
+                        for v in variants:
+                            for o in actual(bid, idx, a[1]):
+                                v2 = list(v)
+                                v2[k] = (o[0], o[1], o[2] + a[2])
+                                nv.append(v2)
+                        variants = nv
+                for v in variants:
+                    nc.append((g, name, loc, v, bid, idx, c))
+            else:
+                nc.append((g, name, loc, args, bid, idx, c))
+        return nd, nc
 
     @staticmethod
     def _const_pointee(t):
